@@ -335,6 +335,11 @@ def sliceOp (a lo hi : V ω) : X ω (V ω) :=
     (match boundOf 0 lo, boundOf (b.length : Int) hi with
      | some l, some u => .ok (.bytes (pySlice b l u))
      | _, _ => raiseX xUnsupported)
+  | .str s =>
+    -- a prefix `s[0:k]` of a text value (identifiers are carried as numbers; `nameTake` is their first `k` bytes)
+    (match lo, hi with
+     | .int 0, .int k => if 0 ≤ k then .ok (.str (nameTake s k.toNat)) else raiseX xUnsupported
+     | _, _ => raiseX xUnsupported)
   | .none => raiseX xTypeError
   | .int _ => raiseX xTypeError
   | _ => raiseX xUnsupported
